@@ -17,11 +17,14 @@ sys.path.insert(0, os.path.join(HERE, "..", "lib"))
 import verif  # noqa: E402
 
 KINDS = ["set", "mset", "map", "mmap"]
-DUP = {"set": False, "mset": True, "map": False, "mmap": True, "dms": True}
-ISMAP = {"set": False, "mset": False, "map": True, "mmap": True, "dms": False}
+DUP = {"set": False, "mset": True, "map": False, "mmap": True, "dms": True, "ims": True}
+ISMAP = {"set": False, "mset": False, "map": True, "mmap": True, "dms": False, "ims": False}
 # "dms" = btree_multiset<int> with the DEFAULT comparator and DEFAULT traits (64 leaf / 21 inner slots for int on
 # LP64, binary search by the 256-byte threshold); the harness checks these numbers against the real type
 DEFAULT_TRAITS_CFG = ("dms", 0, 64, 21, 1)
+# argument-aliasing call modes (the key / value argument is a reference to an entry of the same container)
+ALIAS_INSERTS = ["Ia", "Iha", "I2a", "Iba"]
+ALIAS_ERASES = ["E1a", "EKa"]
 
 
 # ------------------------------------------------------------------------------------------ configurations
@@ -56,6 +59,7 @@ def choose_configs(ck):
             l, i = rest[rng.below(len(rest))]
             cfgs.append((KINDS[(n + rng.below(4)) % 4], rng.below(2), l, i, rng.below(2)))
     cfgs.append(DEFAULT_TRAITS_CFG)
+    cfgs.extend(HUGE_CFGS if ck.thorough() else HUGE_CFGS[:1])
     out = []
     for c in cfgs:
         if c not in out:
@@ -114,7 +118,85 @@ class Shadow:
         return [x[0] for x in self.l]
 
 
-def gen_case(rng, cfg, nops):
+# HUGE node capacities (slot counters are unsigned short, so up to 65535 slots are representable): "every node
+# capacity of at least four slots".  (kind, gt, leaf, inner, bin); the binary search is the interesting branch.
+HUGE_CFGS = [("ims", 0, 65535, 8, 1), ("ims", 0, 60000, 4, 1), ("ims", 1, 4, 65535, 1)]
+# the list-and-Peano model cannot run a 45000-children inner node in reasonable time: such cases are judged by the
+# std container, verify() and the ledgers only
+def no_model(cfg):
+    return cfg[3] >= 60000
+
+
+def gen_huge(rng, cfg):
+    """bulk_load enough entries for one node to hold more than 2/3 of 65535 slots, then lookups / bounds at keys in
+    the upper part of that node (where lo + hi of the in-node binary search exceeds 16 bits), a few inserts and
+    erases there, full iteration."""
+    kind, gt, leaf, inner, _b = cfg
+    if inner >= 60000:
+        n = rng.range(180000, 200000)       # > 43690 leaves of 4 -> one inner node with > 43690 keys
+    elif leaf == 65535:
+        n = rng.range(50000, 65535)         # one leaf
+    else:
+        n = rng.range(100000, 118000)       # two leaves of > 50000
+    ks = [t // 2 for t in range(n)]
+    hi = ks[-1]
+    if gt:
+        ks.reverse()
+    ops = ["B,0,%d" % n + "".join(",%d,0" % k for k in ks)]
+    def upper_key():
+        return rng.range(hi * 2 // 3, hi + 1) if not gt else rng.range(0, hi // 3)
+    for _ in range(36):
+        k = upper_key() if rng.chance(5, 6) else rng.range(0, hi)
+        ops.append("%s,0,%d" % (rng.choice(["U", "Uc", "R", "Rc", "L", "Lc", "F", "C", "X", "U", "Uc"]), k))
+    for _ in range(6):
+        k = upper_key()
+        ops.append("I,0,%d,0" % k); ops.append("Uc,0,%d" % k)
+        ops.append("%s,0,%d" % (rng.choice(["E1", "EK"]), upper_key())); ops.append("R,0,%d" % k)
+    ops.append("T,0")
+    return cfg_name(cfg) + " " + " ".join(ops)
+
+
+ALIAS_PROBE = r"""
+#include <tlx/container/btree_multimap.hpp>
+#include <tlx/container/btree_multiset.hpp>
+struct T4 { static const bool self_verify = false, debug = false; static const int leaf_slots = 4, inner_slots = 4;
+            static const size_t binsearch_threshold = 256; };
+int main() {
+    int rc = 0;
+    { tlx::btree_multiset<int, std::less<int>, T4> s; int a[] = {1, 1, 2, 3}; for (int x : a) s.insert(x);
+      auto it = s.begin(); ++it; if (s.erase(*it) != 2 || s.size() != 2) rc |= 1; }
+    { tlx::btree_multimap<int, int, std::less<int>, T4> m; m.insert(std::make_pair(5, 100)); m.insert(std::make_pair(5, 200));
+      auto it = m.begin(); ++it; int d = it->second; m.insert(*it); int n = 0; for (auto& p : m) if (p.second == d) ++n; if (n != 2) rc |= 2; }
+    return rc;
+}
+"""
+
+
+def probe_alias_defects(ck):
+    """Two argument-aliasing call modes misbehave on tlx as shipped (docs/audit/C01.md F4, F5; proposed patches
+    fixes/C01/04, 05): erase(key) of the multi containers with the key referring into the tree, and insert(value)
+    with the value referring to a later entry of the same run.  The two witnesses are run against the working tree
+    on every check run; a mode is generated as soon as its witness passes (and is reported as usual if it breaks
+    again afterwards)."""
+    src = os.path.join(ck.scratch, "alias_probe.cpp")
+    exe = os.path.join(ck.scratch, "alias_probe")
+    with open(src, "w") as f:
+        f.write(ALIAS_PROBE)
+    rc, _ = verif.sh([verif.CXX, "-std=c++17", "-O0", "-I", verif.REPO, src, "-o", exe], timeout=300)
+    bits = 3
+    if rc == 0:
+        rc2, _ = verif.sh([exe], timeout=60)
+        bits = rc2 if rc2 in (0, 1, 2, 3) else 3
+    open_modes = set()
+    if bits & 1:
+        open_modes.add("erase-key-alias-multi")
+    if bits & 2:
+        open_modes.add("insert-value-alias-multimap")
+    ck.coverage["aliasing_modes_excluded_because_witness_still_fails"] = sorted(open_modes)
+    return open_modes
+
+
+def gen_case(rng, cfg, nops, open_modes=frozenset()):
     kind, gt, leaf, inner, _b = cfg
     dup, ismap = DUP[kind], ISMAP[kind]
     sh = [Shadow(kind, gt) for _ in range(3)]
@@ -147,6 +229,15 @@ def gen_case(rng, cfg, nops):
             for kk, dd in items:
                 sh[i].insert(kk, dd)
             return
+        if r >= 8 and sh[i].l and rng.chance(1, 5):
+            # ARGUMENT ALIASING: the value handed to insert / insert(hint) / insert2 / operator[] is a reference to
+            # an entry stored in the same container (multi containers: duplicates it, unique ones: not inserted)
+            ak, ad = rng.choice(sh[i].l)
+            nm = rng.choice(ALIAS_INSERTS)
+            if not (kind == "mmap" and "insert-value-alias-multimap" in open_modes):
+                ops.append("%s,%d,%d,%d,%d" % (nm, i, ak, ad, rng.below(8)))
+                sh[i].insert(ak, ad)
+                return
         d = newd()
         if r < 55:
             ops.append("I,%d,%d,%d" % (i, k, d))
@@ -163,6 +254,10 @@ def gen_case(rng, cfg, nops):
     def query(i, k=None):
         # lookups through the mutable object and (suffix c) through a const reference
         k = key_near(i) if k is None else k
+        if sh[i].l and rng.chance(1, 6):     # the key argument is a reference into the container
+            ak, ad = rng.choice(sh[i].l)
+            ops.append("%s,%d,%d,%d,%d" % (rng.choice(["Fa", "Xa", "Ca", "La", "Ua", "Ra"]), i, ak, ad, rng.below(8)))
+            return
         ops.append("%s,%d,%d" % (rng.choice(["F", "X", "C", "L", "U", "R", "Fc", "Lc", "Uc", "Rc", "Uc", "Rc"]), i, k))
 
     def erase_iter(i):
@@ -175,6 +270,17 @@ def gen_case(rng, cfg, nops):
     def erase(i, k=None):
         k = key_near(i) if k is None else k
         r = rng.below(10)
+        if sh[i].l and rng.chance(1, 5):     # erase(key) / erase_one(key) with the key aliasing a stored entry
+            ak, ad = rng.choice(sh[i].l) if not sh[i].keys().count(k) else rng.choice([x for x in sh[i].l if x[0] == k])
+            nm = rng.choice(ALIAS_ERASES)
+            if dup and "erase-key-alias-multi" in open_modes:
+                nm = "E1a"
+            ops.append("%s,%d,%d,%d,%d" % (nm, i, ak, ad, rng.below(8)))
+            if nm == "E1a":
+                sh[i].erase_one(ak)
+            else:
+                sh[i].erase_key(ak)
+            return
         if r < 4:
             ops.append("E1,%d,%d" % (i, k)); sh[i].erase_one(k)
         elif r < 6:
@@ -402,6 +508,7 @@ def main(pid):
     corpus_path = os.path.join(verif.VERIF, "corpus", "C01", "cases.txt")
     corpus = [l.strip() for l in open(corpus_path) if l.strip() and not l.startswith("#")] if os.path.exists(corpus_path) else []
     cfgs = choose_configs(ck)
+    open_modes = probe_alias_defects(ck)
     if ck.replay:
         rp = json.load(open(ck.replay))
         cases = [rp["case"]] if rp.get("case") else []
@@ -415,14 +522,24 @@ def main(pid):
     ncorpus = len(cases)
     if not ck.replay:
         N = 24000 if ck.thorough() else 900
+        normal = [c for c in cfgs if c not in HUGE_CFGS]
         for k in range(N):
-            cfg = cfgs[k % len(cfgs)] if k < 2 * len(cfgs) else rng.choice(cfgs)
+            cfg = normal[k % len(normal)] if k < 2 * len(normal) else rng.choice(normal)
             big = cfg[2] * cfg[3] > 90
             nops = rng.range(20, 70) if not big else rng.range(60, 160)
-            cases.append(gen_case(rng, cfg, nops))
+            cases.append(gen_case(rng, cfg, nops, open_modes))
+        for cfg in cfgs:
+            if cfg in HUGE_CFGS:
+                for _ in range(2 if ck.thorough() else 1):
+                    cases.append(gen_huge(rng, cfg))
     casefile = os.path.join(ck.scratch, "cases.txt")
     with open(casefile, "w") as f:
         f.write("\n".join(cases) + "\n")
+    # the model driver gets the same file, except that histories it cannot run (no_model) are reduced to their name
+    modelfile = os.path.join(ck.scratch, "cases_model.txt")
+    skip_model = [no_model(parse_cfg_name(c.split(" ", 1)[0])) for c in cases]
+    with open(modelfile, "w") as f:
+        f.write("\n".join((c.split(" ", 1)[0] if sk else c) for c, sk in zip(cases, skip_model)) + "\n")
     dumpfile = os.path.join(ck.scratch, "dumps.txt")
 
     found = False
@@ -476,7 +593,7 @@ def main(pid):
                     else:
                         lo = mid + 1
                 case = truncate_case(case, lo)
-            ck.violation("real B+ tree crashes / is flagged by ASan/UBSan/LeakSanitizer on a valid history",
+            ck.violation("real B+ tree crashes, is flagged by ASan/UBSan/LeakSanitizer, or does not terminate (30 s watchdog) on a valid history",
                          {"case": case, "log_tail": (bad[1] if bad else out1)[-3000:]}, no_input=(case is None))
 
         complete = len([l for l in impl if " final=" in l]) >= len(cases)
@@ -484,12 +601,14 @@ def main(pid):
             found = True
             report_crash(max(0, len([l for l in impl if " final=" in l]) - 1))
         else:
-            rc2, out2 = verif.sh([drv, casefile, dumpfile], timeout=3000)
+            rc2, out2 = verif.sh([drv, modelfile, dumpfile], timeout=3000)
             model = out2.splitlines()
             for idx, c in enumerate(cases):
                 evaluations += 1
                 a = impl[idx] if idx < len(impl) else "<missing>"
                 b = model[idx] if idx < len(model) else "<missing>"
+                if skip_model[idx] and a != "<missing>":
+                    b = a.split(" STDDIFF@")[0]       # judged by the std container, verify() and the ledgers only
                 cfgname = c.split()[0]
                 stats[cfgname] = stats.get(cfgname, 0) + 1
                 ta, fa, stda, na, _ = split_line(a)
@@ -507,7 +626,8 @@ def main(pid):
                 for tok, op in zip(ta, c.split()[1:]):
                     nm = op.split(",")[0]
                     ophist[nm] = ophist.get(nm, 0) + 1
-                    nm = {"Ih": "I", "I2": "I", "Ih2": "I", "Ib": "I", "IR": "I"}.get(nm, nm)
+                    nm = {"Ih": "I", "I2": "I", "Ih2": "I", "Ib": "I", "IR": "I", "Ia": "I", "Iha": "I", "I2a": "I", "Iba": "I",
+                          "E1a": "E1", "EKa": "EK"}.get(nm, nm)
                     bk = book_part(tok).split(".")
                     if len(bk) == 5:
                         maxinner = max(maxinner, int(bk[3]))
